@@ -229,11 +229,16 @@ RandomAccessIterator partition(RandomAccessIterator first,
   typedef partition_helper<RandomAccessIterator, Predicate> P;
   typename P::partition_helper_state s(first, last, pred);
   on_each(P(&s));
-  if (s.rfirst == first && s.rlast == last) { // perfect !
-    // abort();
-    return s.first;
-  }
-  return std::partition(s.rfirst, s.rlast, pred);
+  // All blocks have been claimed, so s.first == s.last is where the low and
+  // high cursors met.  Blocks below it that were processed completely hold
+  // only true elements, blocks above it only false ones; [rfirst, rlast)
+  // spans the blocks that were left over partially processed.  The serial
+  // clean-up has to cover the leftover span extended to the meeting point:
+  // otherwise finished low blocks to the right of the span (or finished high
+  // blocks to its left) end up on the wrong side of the returned position.
+  // Without leftovers the range is empty and the meeting point is returned.
+  RandomAccessIterator mid = s.first;
+  return std::partition(std::min(s.rfirst, mid), std::max(s.rlast, mid), pred);
 }
 
 struct pair_dist {
